@@ -637,6 +637,25 @@ def implies_le(cond, pol, end, length):
     return False
 
 
+def implies_len_ge_const(cond, pol, ln, k):
+    """does (cond == pol) imply  len >= k  for a constant k?  handles len == c, len != c, len >= c, len > c, len < c"""
+    n = _norm_cmp(cond, pol)
+    if not n:
+        return False
+    op, a, b = n
+    if _eq_mod_casts(a, ln):
+        c = const_eval(b)
+        if c is None:
+            return False
+        return (op == "Eq" and c >= k) or (op == "Ge" and c >= k) or (op == "Gt" and c + 1 >= k)
+    if _eq_mod_casts(b, ln):
+        c = const_eval(a)
+        if c is None:
+            return False
+        return (op == "Eq" and c >= k) or (op == "Le" and c >= k) or (op == "Lt" and c + 1 >= k)
+    return False
+
+
 
 def _peel_refs(t):
     while isinstance(t, tuple) and t and t[0] in ("ref", "deref"):
@@ -692,6 +711,7 @@ def _guarded_range_index(body, s, base):
     if not (ix[0] == "agg" and ix[1][0] == "adt" and re.search(r"::(RangeFrom|RangeTo)$", ix[1][1]) and len(ix[2]) == 1):
         return None
     x = ix[2][0]
+    xc = const_eval(x)
     for g, cond, pol in _cmp_guards(body, s.bb):
         c, p = cond, pol
         while c[0] == "un" and c[1] == "Not":
@@ -701,6 +721,8 @@ def _guarded_range_index(body, s, base):
         for ln in (c[2], c[3]):
             if _is_len_of(ln, base) and implies_le(c, p, x, ln):
                 return "guard %s (%s edge) at bb%d implies bound <= len" % (fmt(cond, 100), pol, g)
+            if xc is not None and _is_len_of(ln, base) and implies_len_ge_const(c, p, ln, xc):
+                return "guard %s (%s edge) at bb%d implies len >= %d" % (fmt(cond, 100), pol, g, xc)
     return None
 
 
@@ -746,6 +768,18 @@ def _first_split_item(body, s):
         if (r2 & roots) - {rl[0], pl[0]} and (nb in body.reach(body.succ[c.bb])):
             return None
     return "first item of a fresh %s iterator (always yields at least one item)" % it[1].split("::")[-1]
+
+
+def _array_try_into(body, s):
+    """unwrap/expect of <&[T] as TryInto<[T; N]>>::try_into(x) where x has constant length N"""
+    o = body.origin(s.ops[0])
+    if not (o[0] == "call" and (o[1].endswith("::try_into") or o[1].endswith("::try_from")) and len(o[2]) == 1):
+        return None
+    n = _ty_len(re.sub(r"^core::result::Result<(.*), [^,]*>$", r"\1", str(o[4]) if len(o) > 4 and o[4] else ""))
+    src = const_len(o[2][0])
+    if n is not None and src is not None and n == src:
+        return "try_into::<[_; %d]> of a slice of constant length %d" % (n, src)
+    return None
 
 
 def _len_tree_of(t):
@@ -883,8 +917,13 @@ def _auto_discharge(F, s, cfg):
             if u is not None and u < lnv:
                 return "index <= %d < %d on every path (per-definition guards/arithmetic)" % (u, lnv)
         return None
+    if s.cls == "div" and s.call is not None and s.call.decl.endswith("Iterator::step_by") and len(s.ops) == 2:
+        st = const_eval(body.origin(s.ops[1]))
+        if st is not None and st != 0:
+            return "step_by with constant non-zero step %d" % st
+        return None
     if s.cls == "unwrap":
-        why = _first_split_item(body, s)
+        why = _first_split_item(body, s) or _array_try_into(body, s)
         if why:
             return why
         o = body.origin(s.ops[0])
@@ -1053,6 +1092,27 @@ def verify_guard(F, s, entry):
         others = [sx for sx in body.succ[g] if s.bb not in body.reach([sx], avoid=[g])]
         if others:
             found.append("bb%d: %s" % (g, fmt(o, 120)))
+    if not found:
+        # short-circuit conditions (`if a(x) && b(y) { return }`): the first test dominates the site but both of its
+        # edges reach it; the second test, dominated by the first, has the avoiding edge
+        heads = []
+        for g0 in sorted(doms):
+            t0 = body.term(g0)
+            if t0[0] == "switch" and const_int(t0[1]) is None and all(_tok_in(w, tokens(body.origin(t0[1]))) for w in want):
+                heads.append(g0)
+        for g in sorted(body.live_blocks()):
+            if g in doms or not heads:
+                continue
+            t = body.term(g)
+            if t[0] != "switch" or const_int(t[1]) is not None:
+                continue
+            o = body.origin(t[1])
+            if not all(_tok_in(w, tokens(o)) for w in want):
+                continue
+            if not any(body.dominates(h, g) for h in heads):
+                continue
+            if [sx for sx in body.succ[g] if s.bb not in body.reach([sx], avoid=[g])]:
+                found.append("bb%d (short-circuit, after bb%s): %s" % (g, heads, fmt(o, 100)))
     # `guard_count = n`: at least n distinct dominating branches must match (e.g. one per range end)
     if len(found) >= int(entry.get("guard_count", 1)):
         return True, "; ".join(found[:3])
